@@ -933,3 +933,27 @@ def run(idx, rep, tier):
     r12(k)
     r13(k)
     r14(k)
+    rep.rule('C12.R15', 'SFTPClientFile.read: the size computed for a read '
+             'to end of file is clamped at 0 (position past the end reads '
+             'as empty): a negative size reaches UInt32() as OverflowError')
+    _fi = k.func('sftp.SFTPClientFile.read')
+    _g = k.cfg(_fi)
+    _st = [(n, v) for n, v in k.stores_to(_fi, 'size')
+           if v is not None and any(is_call(c, '_end', 'self')
+                                    for c in ast.walk(v))]
+    rep.floor('C12.R15', 'end-of-file size computations', len(_st), 1)
+    for _n, _v in _st:
+        _ok = is_call(_v, 'max') and any(
+            isinstance(a, ast.Constant) and a.value == 0 for a in _v.args)
+        if not _ok:
+            # or a later guard on size < 0 / size <= 0
+            _ok = any(a.kind == 'atom' and isinstance(a.ast, ast.Compare) and
+                      dotted(a.ast.left) == 'size' and
+                      isinstance(a.ast.ops[0], (ast.Lt, ast.LtE)) and
+                      _g.path(_n.id, a.id) is not None for a in _g.nodes)
+        rep.check(_ok, 'C12.R15', key(_fi, 'read past the end is empty'),
+                  'size = max(end - offset, 0)',
+                  f'`{norm(_v)}` is negative after a seek beyond the end of '
+                  'the file: read() raises OverflowError (cannot convert '
+                  'negative int to unsigned) instead of returning an empty '
+                  'result', k.loc(_fi, _n))
